@@ -35,3 +35,23 @@
 ; a byte that may appear raw inside the JSON text written by the encoder: no control characters,
 ; and with HTML escaping none of < > &
 (define-fun jsonOutOK ((c Int) (html Bool)) Bool (and (>= c 32) (=> html (not (or (= c 60) (= c 62) (= c 38))))))
+; decimal value of the n digits at addresses a..a+n-1 of heap h (left to right, Horner);
+; recursive, given by its unfolding axioms
+(declare-fun jsonHorner ((Array Int Int) Int Int) Int)
+(assert (forall ((h (Array Int Int)) (a Int) (n Int)) (! (=> (<= n 0) (= (jsonHorner h a n) 0)) :pattern ((jsonHorner h a n)))))
+(assert (forall ((h (Array Int Int)) (a Int) (n Int)) (! (=> (> n 0) (= (jsonHorner h a n) (+ (* 10 (jsonHorner h a (- n 1))) (- (select h (adr a (- n 1))) 48)))) :pattern ((jsonHorner h a n)))))
+(define-fun jsonAllDigits ((h (Array Int Int)) (a Int) (n Int)) Bool
+  (forall ((k Int)) (! (=> (and (<= 0 k) (< k n)) (jsonIsDigit (select h (adr a k)))) :pattern ((select h (adr a k))))))
+; RFC 8259 structural classes of the next non-space byte
+(define-fun jsonIsWS ((c Int)) Bool (or (= c 32) (= c 9) (= c 10) (= c 13)))
+; bytes skipped as white space by the library (unicode.IsSpace on a byte): a superset of RFC 8259 ws
+(define-fun jsonGoSpace ((c Int)) Bool (or (= c 9) (= c 10) (= c 11) (= c 12) (= c 13) (= c 32) (= c 133) (= c 160)))
+; representation invariant: the countdown of the literal in progress
+(define-fun jsonRequiredOK ((st Int) (req Int)) Bool
+  (and (=> (or (= st 11) (= st 12)) (and (<= 1 req) (<= req 3))) (=> (= st 13) (and (<= 1 req) (<= req 4)))))
+(define-fun jsonStopChar ((c Int)) Bool (or (= c 32) (= c 9) (= c 12) (= c 10) (= c 13) (= c 44) (= c 93) (= c 125)))
+(define-fun jsonNumStart ((c Int)) Bool (or (= c 45) (= c 43) (= c 46) (jsonIsDigit c)))
+; states that a step may leave without consuming input (they only look at the next byte)
+(define-fun jsonRank ((st Int)) Int (ite (or (= st 2) (= st 5) (= st 7) (= st 15)) 1 0))
+; states that are saved on the state stack: always the state to return to after a value
+(define-fun jsonRetState ((st Int)) Bool (or (= st 1) (= st 10) (= st 4)))
